@@ -1370,7 +1370,7 @@ func c20NAF(r *Report, p *Prog) {
 				}
 				results[w].e = e
 			}()
-			results[w].rets = e.runFunc(fn, st, []sVal{sSlice{id, 0, 257}, sBytes{"s", 32}, sInt{big.NewInt(257)}, sInt{big.NewInt(int64(w))}})
+			results[w].rets = e.runFunc(fn, st, []sVal{sSlice{id, 0, 257}, sBytes{name: "s", n: 32}, sInt{big.NewInt(257)}, sInt{big.NewInt(int64(w))}})
 		}(w)
 	}
 	wg.Wait()
